@@ -4,7 +4,7 @@
 //!
 //! Case: {"id":n, "steps":[ {"t":"newgame"} | {"t":"position","fen":..,"moves":[..]} |
 //!   {"t":"go", "depth":n?, "movetime":ms?, "wtime":ms?, "btime":ms?, "winc":ms?, "binc":ms?, "movestogo":n?, "nodes":n?,
-//!    "mate":n?, "infinite":bool?, "searchmoves":[..], "abort_at":n?, "abort_kind":1|2, "stop_after_ms":ms?} |
+//!    "mate":n?, "infinite":bool?, "searchmoves":[..], "abort_at":n?, "abort_kind":1|2, "stop_after_ms":ms?, "ponderhit_after_ms":ms?} |
 //!   {"t":"stop"} | {"t":"isready"} | {"t":"debug","on":bool} | {"t":"probe_fen"} | {"t":"fresh"} |
 //!   {"t":"abort_sweep","depth":d,"searchmoves":[..],"max":k,"seed":s} ] }
 use std::str::FromStr;
@@ -141,14 +141,21 @@ impl<'a> Session<'a> {
     /// `stop` is sent once `stop_after` has elapsed, whether or not output keeps flowing; a search that floods
     /// output (e.g. `go infinite` on a forced mate iterates thousands of depths per second) is logged up to a
     /// cap and then only counted.
-    fn drain_until_bestmove(&mut self, stop_after: Option<Duration>) {
+    fn drain_until_bestmove(&mut self, stop_after: Option<Duration>, ponderhit_after: Option<Duration>) {
         const MAX_LOGGED: usize = 400;
         let started = Instant::now();
         let mut stop_sent = stop_after.is_none();
+        let mut hit_sent = ponderhit_after.is_none();
         let mut logged = 0usize;
         let mut skipped = 0u64;
         let mut last_msg = Instant::now();
         loop {
+            // a ponderhit in the middle of the search (the engine does not ponder: the command must change nothing that is reported)
+            if !hit_sent && started.elapsed() >= ponderhit_after.unwrap() {
+                hit_sent = true;
+                self.emit_in("ponderhit", json!({}));
+                self.engine.accept(UciCommand::PonderHit);
+            }
             if !stop_sent && started.elapsed() >= stop_after.unwrap() {
                 stop_sent = true;
                 self.emit_in("stop", json!({}));
@@ -162,6 +169,7 @@ impl<'a> Session<'a> {
             }
             let wait = if stop_sent { WATCHDOG.saturating_sub(last_msg.elapsed()).max(Duration::from_millis(1)) }
                        else { stop_after.unwrap().saturating_sub(started.elapsed()).max(Duration::from_micros(200)) };
+            let wait = if hit_sent { wait } else { wait.min(ponderhit_after.unwrap().saturating_sub(started.elapsed()).max(Duration::from_micros(200))) };
             match self.rx.recv_timeout(wait) {
                 Ok(UciTxCommand::Info { info }) => {
                     last_msg = Instant::now();
@@ -242,7 +250,7 @@ impl<'a> Session<'a> {
         verif::take_iterations();
         self.emit_in("go", json!({"searchmoves": sm, "limited": limited || at.is_some(), "params": step}));
         self.engine.accept(UciCommand::Go { go });
-        self.drain_until_bestmove(ms(step, "stop_after_ms"));
+        self.drain_until_bestmove(ms(step, "stop_after_ms"), ms(step, "ponderhit_after_ms"));
         verif::disarm_abort();
     }
 
